@@ -90,7 +90,9 @@ type strCase struct {
 func buildStrCases(tier string) []strCase {
 	var cs []strCase
 	add := func(note, lit string) { cs = append(cs, strCase{lit: lit, note: note}) }
-	addV := func(note, lit string, v []byte) { cs = append(cs, strCase{lit: lit, note: note, byCons: v, hasByCons: true}) }
+	addV := func(note, lit string, v []byte) {
+		cs = append(cs, strCase{lit: lit, note: note, byCons: v, hasByCons: true})
+	}
 	addE := func(note, lit string) { cs = append(cs, strCase{lit: lit, note: note, hasByCons: true, consErr: true}) }
 	quotes := []string{`"`, `'`}
 	for _, q := range quotes {
@@ -355,7 +357,9 @@ func literalFamilies(tier string) []*core.Family {
 
 	strs := buildStrCases(tier)
 	fams = append(fams, &core.Family{Name: "short-strings", Size: uint64(len(strs)),
-		Show: func(i uint64) string { return fmt.Sprintf("[%s] emit(%s)  -- %q", strs[i].note, strs[i].lit, strs[i].lit) },
+		Show: func(i uint64) string {
+			return fmt.Sprintf("[%s] emit(%s)  -- %q", strs[i].note, strs[i].lit, strs[i].lit)
+		},
 		Run: func(i uint64) core.Outcome {
 			c := strs[i]
 			val, n, ok := reflex.ShortString(c.lit)
